@@ -47,6 +47,14 @@ class Injected(Exception):
 FAULTS = {"custom": Injected, "runtime": RuntimeError, "zerodiv": ZeroDivisionError, "keyboard": KeyboardInterrupt}
 
 
+ROTATION = ["custom", "keyboard", "runtime", "nested", "zerodiv", "keyboard"]
+
+
+def fault_kind(case, call_index):
+    """'rotate': the kind of exception depends on the crash point, so every configuration meets every kind"""
+    return ROTATION[call_index % len(ROTATION)] if case["fault"] == "rotate" else case["fault"]
+
+
 def make_fault(kind, msg):
     """'nested': user code (e.g. a callback driving an inner OdeSystem) raises the library's own FailedIntegration, chained
     to its own cause - still "the original cause" the outer failure has to carry"""
@@ -74,7 +82,7 @@ def _config(draw, cap=160):
     return dict(part="faults", method=method, dtype="float64", prob=prob, y0=draw(PR.state(prob["shape"])), t0=t0, tf=t0 + direction * L,
                 dt=L / nsteps, rtol=1e-6, atol=1e-6, dense=draw(st.booleans()) or (against and draw(st.booleans())), callbacks=draw(st.booleans()),
                 events=draw(st.sampled_from([[], [], [0.37], [0.37, 0.62]] if not against else [[], [0.37], [0.37, 0.62], [0.62]])), user_jac=draw(st.booleans()),
-                fault=draw(st.sampled_from(["custom", "custom", "runtime", "zerodiv", "keyboard", "nested"])), cap=cap,
+                fault=draw(st.sampled_from(["rotate", "rotate", "rotate", "custom", "runtime", "zerodiv", "keyboard", "nested"])), cap=cap,
                 # a second fault, `second` user-callable calls into the resumed integrate() (at every third crash point)
                 second=draw(st.sampled_from([0, 0, 1, 2, 5, 17])), against_span=against)
 
@@ -105,7 +113,7 @@ class Harness(object):
             outer.log.append((kind, n))
             if outer.fault_at is not None and outer.calls == outer.fault_at:
                 outer.fault_at = None
-                outer.fault_obj = make_fault(case["fault"], "injected at call {} ({})".format(outer.calls, kind))
+                outer.fault_obj = make_fault(fault_kind(case, outer.calls), "injected at call {} ({})".format(outer.calls, kind))
                 raise outer.fault_obj
 
         class RHS(object):
@@ -221,7 +229,7 @@ def check(case):
         if n_expected >= 2:
             deep += 1
         # ---- how the failure is reported
-        if case["fault"] == "keyboard":
+        if fault_kind(case, k) == "keyboard":
             if out != "keyboard" or err is not h.fault_obj:
                 viols.append(V("keyboard_interrupt_not_propagated", "{}: {}: outcome {!r}, exception {!r}".format(method, where, out, err), sig, **attrs))
                 break
@@ -261,7 +269,7 @@ def check(case):
             viols.append(V("sol_not_none", "dense output off but sol is not None after the failure", sig, **attrs))
             break
         # ---- a second fault during the resumed call: reported the same way, what was kept stays kept
-        if case.get("second") and (k - ks[0]) % 3 == 0 and case["fault"] != "keyboard":
+        if case.get("second") and (k - ks[0]) % 3 == 0 and fault_kind(case, k) != "keyboard" and fault_kind(case, h.calls + case["second"]) != "keyboard":
             first_fault = h.fault_obj
             h.fault_at = h.calls + case["second"]
             outd, errd = h.integrate()
